@@ -32,7 +32,8 @@ _ALL = ["timing", "mutex", "queueing", "pool", "wakeup", "lifecycle", "buffer", 
 
 def strategy(tier):
     heavy = (tier == "thorough")
-    return st.one_of(*([simgen.scenario(p) for p in _ALL] + [simgen.stress(heavy)] * 4))
+    big = [simgen.scenario(p, big=True) for p in _ALL] if heavy else []
+    return st.one_of(*([simgen.scenario(p) for p in _ALL] + big + [simgen.stress(heavy)] * 4))
 
 
 def serialize(case):
